@@ -76,6 +76,14 @@ type Case struct {
 	// started, while the output may still be retrying.
 	StopAfterMs int
 
+	// ResumePct: percentage of sources that are "resumed": the input hands saved
+	// per-stream offsets to In and its PassEvent refuses records at or below
+	// them (what the file input does after a restart).
+	ResumePct int
+	// NestedSplit: split children carry a nested array under the same field
+	// (exercises a second split action on children).
+	NestedSplit bool
+
 	Trace bool // stream every record to the child's on-disk log (used when re-running a crashing case)
 
 	Spread bool // input calls UseSpread + DisableStreams (kafka-like)
